@@ -30,7 +30,7 @@ def main(argv):
     exe, tables = F.harness("sched")
     cexe, _ = enumcheck.reflect_harness("h_codec", "plain")
     jobs = []
-    jobs += [(cexe, ["mode=frame", "shard=%d/8" % i] + ([] if quick else ["big=1"])) for i in range(8)]
+    jobs += [(cexe, ["mode=frame", "shard=%d/8" % i, "big=1"]) for i in range(8)]
     # (a) universe alone
     ua = [([0], [64], [0]), ([6], [0x20000], [1]), ([1], [0x400000], [0]), ([9], [33], [1])]
     if not quick:
